@@ -383,6 +383,8 @@ class MailboxWorld:
             return c.app.helper is not None
         if step[0] == "set_code_peer":
             return self._peer_code(c) is not None
+        if step[0] == "get_late":       # a get_*() issued only after the closed notification
+            return c.app.closed > 0
         return True
 
     def _peer_code(self, c):
@@ -589,8 +591,8 @@ class MailboxWorld:
                                    lambda f: app.ev("closed", verdict(f)))
             elif op == "derive":
                 app.extra.append(("derive", step[1], step[2], w.derive_key(step[1], step[2])))
-            elif op == "get":
-                self._get(c, step[1])
+            elif op in ("get", "get_late"):
+                self._get(c, step[1], late=(op == "get_late"))
             else:
                 h = self.cfg.get("api_hook")
                 if not h or not h(self, c, step):
@@ -601,13 +603,16 @@ class MailboxWorld:
             app.api_errors.append((op, type(e).__name__))
             self.escaped.append(("api:" + op, c.ci, type(e).__name__, str(e)[:160]))
 
-    def _get(self, c, what):
+    def _get(self, c, what, late=False):
         app = c.app
         w = c.w
         n = len(app.extra)
+        what0 = what
+        if late:
+            what = what
         d = {"code": w.get_code, "key": w.get_unverified_key, "verifier": w.get_verifier,
              "versions": w.get_versions, "message": w.get_message, "welcome": w.get_welcome}[what]()
-        slot = ["get:" + what, n, "pending", None]
+        slot = ["get:" + what, n, "pending", None, "late" if (late or app.closed) else "early"]
         app.extra.append(slot)
 
         def ok(v):
